@@ -15,7 +15,7 @@ PY
 # translators regenerate their .v files from /repo before the Coq build
 if [ -x ./translate.sh ]; then ./translate.sh; fi
 cd coq
-coq_makefile -f _CoqProject -o Makefile
+python3 -c "import sys; sys.path.insert(0, \"../lib\"); import vlib; vlib.coq_makefile()"
 timeout 3000 make -j"$(nproc)"
 cd ../harness
 mkdir -p ../build/bin
